@@ -479,6 +479,19 @@ impl<'a> ExpressionEvaluator<'a> {
                 BinaryOperator::Multiply => {
                     Ok(vec![left[0].mul(&right[0]).map_err(EvaluationError::from)?])
                 }
+                BinaryOperator::Divide | BinaryOperator::Modulo
+                    if matches!(
+                        &right[0],
+                        DataType::Int(v) if v.0 == 0
+                    ) || matches!(&right[0], DataType::BigInt(v) if v.0 == 0)
+                        || matches!(&right[0], DataType::UInt(v) if v.0 == 0)
+                        || matches!(&right[0], DataType::BigUInt(v) if v.0 == 0) =>
+                {
+                    // Integer division by zero is an error of the statement, not of the worker.
+                    Err(EvaluationError::InvalidExpression(
+                        "division by zero".to_string(),
+                    ))
+                }
                 BinaryOperator::Divide => {
                     Ok(vec![left[0].div(&right[0]).map_err(EvaluationError::from)?])
                 }
@@ -537,8 +550,16 @@ impl<'a> ExpressionEvaluator<'a> {
                 )),
             },
             UnaryOperator::Minus => match operand {
-                DataType::BigInt(i) => Ok(DataType::BigInt((-i.0).into())),
-                DataType::Int(i) => Ok(DataType::Int((-i.0).into())),
+                DataType::BigInt(i) => i
+                    .0
+                    .checked_neg()
+                    .map(|v| DataType::BigInt(v.into()))
+                    .ok_or_else(|| EvaluationError::InvalidExpression("integer overflow".to_string())),
+                DataType::Int(i) => i
+                    .0
+                    .checked_neg()
+                    .map(|v| DataType::Int(v.into()))
+                    .ok_or_else(|| EvaluationError::InvalidExpression("integer overflow".to_string())),
                 DataType::Double(f) => Ok(DataType::Double((-f.0).into())),
                 DataType::Float(f) => Ok(DataType::Float((-f.0).into())),
                 _ => Err(EvaluationError::TypeError(
